@@ -34,7 +34,17 @@ FAULT_KINDS = (
     "badsum",      # data checksum off by one
     "wrongcode",   # response code of a different command
     "raw",         # arg bytes: ACK, then exactly these bytes as the response frame
+    "cutbody",     # arg k: a WELL-FORMED frame (length fields and checksums recomputed) whose payload -- TFI, response
+                   # code, data -- is cut to its first min(k, len-1) bytes: the answer was truncated inside the chip /
+                   # between chip and reader, the framing layer can not notice
+    "cutbodyx",    # the same in an extended information frame
 )
+
+
+def cut_body(body, k):
+    """payload cut to k bytes, but always by at least one byte"""
+    body = bytes(body)
+    return body[:max(0, min(k, len(body) - 1))]
 
 
 class SimHang(BaseException):
@@ -251,6 +261,11 @@ class SimPn53x(object):
             return [ACK, ERR]
         if k == "raw":
             return [ACK, bytes(f.arg)]
+        if k in ("cutbody", "cutbodyx"):
+            if rsp is None:
+                return [ACK]
+            body = cut_body(bytes([0xD5, (code + 1) & 255]) + bytes(rsp), f.arg)
+            return [ACK, info_frame(body, k == "cutbodyx" or self.force_ext)]
         frame = self._frame(code, rsp or b"")
         if k == "wrongcode":
             return [ACK, self._frame((code + 2) & 0xFE, rsp or b"")]
@@ -561,6 +576,10 @@ class Acr122Transport(FrameTransport):
             return [ccid_rsp(b"\x7f\x90\x00")]
         if k == "raw":
             return [bytes(f.arg)]
+        if k in ("cutbody", "cutbodyx"):                 # consistent CCID header (dwLength = what is left)
+            if rsp is None:
+                return []
+            return [ccid_rsp(cut_body(bytes([0xD5, (code + 1) & 255]) + bytes(rsp) + b"\x90\x00", f.arg))]
         if k == "wrongcode":
             return [ccid_rsp(bytes([0xD5, (code + 3) & 255]) + bytes(rsp or b"") + b"\x90\x00")]
         if k == "short":
